@@ -11,7 +11,7 @@ import xml.etree.ElementTree as ET
 from vf import ref_schema as S
 from vf import universe as U
 from vf import wire
-from vf.core import HarnessError, Tally
+from vf.core import vacuous, HarnessError, Tally
 
 LEVEL = "fault_enumeration"
 
@@ -306,26 +306,26 @@ def run(ctx):
     rot = ctx.seed % len(names)
     tally = ctx.pmap(work, names[rot:] + names[:rot])
     if tally.counts.get("constraints", 0) < 4000 or tally.counts.get("classes") != len(names):
-        raise HarnessError(f"vacuous: {tally.counts}")
+        vacuous(tally, f"vacuous: {tally.counts}")
     if not tally.fails:
         for o in ("rejected-ctor", "rejected-tree", "accepted-ctor", "accepted-tree"):
             if o not in tally.outcomes:
-                raise HarnessError(f"vacuous: outcome {o} never seen")
+                vacuous(tally, f"vacuous: outcome {o} never seen")
     tally.sample({"cls": "STATUS", "constraint": "maxdigits:code", "violating": "code=1000000 and -1000000", "boundary": "code=999999"})
     tally.sample({"cls": "INVBUY", "constraint": "at-most-one:currency+origcurrency", "violating": "both present"})
     tally.sample({"cls": "STPCHKRS", "constraint": "order", "violating": "<STPCHKNUM> after <FEEMSG> in the tree"})
     cov = {
-        "evaluations": tally.counts["evaluations"],
-        "distinct_nontrivial": tally.counts["violating"],
+        "evaluations": tally.counts.get("evaluations", 0),
+        "distinct_nontrivial": tally.counts.get("violating", 0),
         "rule": "every class x every declared/inherited constraint: required child omitted (MIN and MAXS); each pair of a group present, none of an exactly-one group, "
         "each member alone; enumeration foreign tokens and first/last token; string at limit / limit+1 (also counted in escaped ampersands; NagString warns and keeps); "
         "integer +-(10^n-1) / 10^n,-10^n,10^(n+1); non-value text per typed element; every adjacent pair of the MAXS tree swapped (unless both repeated); every "
         "non-repeatable child duplicated (adjacent and one sibling later); foreign aggregate / int / str as list member; undeclared keyword - through the keyword "
         "constructor and through Aggregate.from_etree on a tree built by the harness; distinct_nontrivial = violating variants, evaluations also count boundary variants",
-        "constraints": tally.counts["constraints"],
-        "violating_variants": tally.counts["violating"],
-        "boundary_variants": tally.counts["boundary"],
-        "classes": tally.counts["classes"],
+        "constraints": tally.counts.get("constraints", 0),
+        "violating_variants": tally.counts.get("violating", 0),
+        "boundary_variants": tally.counts.get("boundary", 0),
+        "classes": tally.counts.get("classes", 0),
         "exhaustive": True,
     }
     return {"tally": tally, "coverage": cov, "assumptions": [
